@@ -27,8 +27,9 @@ def build_case(rng, i, item):
     def keyfile(state, key):
         return {"none": "", "valid": key + rng.choice(["", "\n"]), "malformed": rng.choice(["zz" + key[2:], key[:10], "not a key"])}[state]
     ln = y["len"]
+    enc_sector = rng.choice([2, 3])      # 2: the tail of the 3k3y area (0x1000..0x1070) lies in an encrypted sector
     if ln == "long":
-        sectors, extra, regions = 6, 0, [[0, 3], [4, 6]]
+        sectors, extra, regions = 6, 0, [[0, enc_sector], [enc_sector + 1, 6]]
     else:
         size = {"short": 0xF00, "inside": 0x1000, "exact": 0x1070}[ln]
         sectors, extra, regions = size // S, size % S, [[0, 1], [1, 3]]
@@ -37,8 +38,8 @@ def build_case(rng, i, item):
     kind = {"none": "redump", "enc": "3k3y-enc", "dec": "3k3y-dec"}[y["watermark"]]
     true_key = rng.choice([kA, kB, kE])
     spec = {"kind": kind, "key": true_key, "regions": regions, "sectors": sectors, "extraLen": extra, "embedded": kE,
-            "encFrom": [[3, 4]] if ln == "long" else []}
-    ops = [{"op": "read", "n": 512} for _ in range(4)] + [{"op": "readat", "off": 3 * S, "n": S}, {"op": "readat", "off": 3 * S + 5, "n": 100}]
+            "encFrom": [[enc_sector, enc_sector + 1]] if ln == "long" else []}
+    ops = [{"op": "read", "n": 512} for _ in range(4)] + [{"op": "readat", "off": 3 * S, "n": S}, {"op": "readat", "off": 3 * S + 5, "n": 100}, {"op": "readat", "off": 2 * S, "n": S}]
     for o in [0xF6F, 0xF70, 0xF80, 0x106F, 0x1070, 0x1071]:
         ops += [{"op": "readat", "off": o, "n": rng.choice([1, 16, 256, 300])}, {"op": "seek", "off": o, "whence": 0}, {"op": "read", "n": rng.choice([1, 17, 257, 4096])}]
     ops += [{"op": "seek", "off": 0, "whence": 0}, {"op": "read", "n": 70000}]
